@@ -1,6 +1,7 @@
 SPECIFICATION Spec
 CONSTANTS
   Depth = 2
+  BinDepth = 3
   Contexts = {1, 2, 3, 4, 7, 8, 9}
   DeepContexts = {1}
   Export = TRUE
